@@ -2,11 +2,11 @@ package props
 
 import (
 	"bytes"
-	"math"
-	"reflect"
 	"context"
 	"fmt"
+	"math"
 	stdhttp "net/http"
+	"reflect"
 	"sort"
 	"strings"
 	"sync"
@@ -68,10 +68,10 @@ type c12Descs struct {
 	hfn   *thrift.FunctionDescriptor
 	hconv *j2t.HTTPConv
 	// shared converter instances
-	t2j, t2jHTTP               *t2j.BinaryConv
-	j2t, j2tStrict, j2tHTTP    *j2t.BinaryConv
-	p2j                        *p2j.BinaryConv
-	j2p                        *j2p.BinaryConv
+	t2j, t2jHTTP            *t2j.BinaryConv
+	j2t, j2tStrict, j2tHTTP *j2t.BinaryConv
+	p2j                     *p2j.BinaryConv
+	j2p                     *j2p.BinaryConv
 }
 
 func (f *c12Fix) parse() (*c12Descs, error) {
